@@ -20,6 +20,7 @@ def c02(chk, tier):
     rules_dispatch.r_linestrip(P(), chk)
     rules_wrapper.r_metawindow(P(), chk)      # a body paragraph must not be swallowed as metadata after a blank line
     rules_dispatch.r_sibling_outline(P(), chk)
+    rules_state.r_incdec(P(), chk)            # a leaked depth counter ends with the parser refusing to descend: text reaches the writers unparsed
 
 
 def c05(chk, tier):
@@ -79,6 +80,9 @@ def c19(chk, tier):
     rules_dstr.r_dstr(P(), chk)
     rules_dstr.r_editloop(P(), chk)
     rules_mem.r_heapidx(P(), chk)
+    rules_mem.r_stale(P(), chk)          # a pointer into str kept across an operation that may move it
+    rules_dstr.r_valist(P(), chk)
+    rules_dstr.r_fmtbound(P(), chk)
 
 
 def c07(chk, tier):
@@ -181,6 +185,10 @@ def c08(chk, tier):
     rules_esc.r_escaper_complete(P(), chk)
     rules_esc.r_escpair(P(), chk)
     rules_balance.r_balance(P(), chk, units={"html.c", "opendocument-content.c"})
+    rules_sink.r_attrbreak(P(), chk)
+    # every tag the writers print goes through d_string_append_printf -> vasprintf: a fragment cut short loses its `>`
+    rules_dstr.r_fmtbound(P(), chk)
+    rules_dstr.r_valist(P(), chk)
 
 
 def c09(chk, tier):
